@@ -81,6 +81,109 @@ def k7_part(ctx: vlib.Ctx):
             ctx.not_shown("translation validation K7", str([flagsets[i] for i in bad[:5]]))
 
 
+def probe(ctx, t, fam, ns, dec, d, nontrivial):
+    ctx.count((t.key(), repr(d)), nontrivial=nontrivial)
+    d0 = copy.deepcopy(d)
+    try:
+        exp = ("ok", ref.ref_decode(t, d0, fam, ns))
+    except ref.RefError as e:
+        exp = ("undef", str(e))
+    try:
+        got = ("ok", dec.decode(d))
+    except Exception as e:
+        got = ("exc", type(e).__name__)
+    what = None
+    if got[0] == "ok":
+        if exp[0] != "ok":
+            what = f"decode returned {gen.py_src(got[1])[:160]} but the reference is undefined ({exp[1]})"
+        elif not gen.same(got[1], exp[1]):
+            what = f"decode returned {gen.py_src(got[1])[:160]}, reference {gen.py_src(exp[1])[:160]}"
+        elif not ref.conforms(t, got[1], fam, ns):
+            what = f"result {gen.py_src(got[1])[:160]} does not conform to the annotation (look-alike class)"
+    elif exp[0] == "ok":
+        what = f"decode raised {got[1]} although the reference defines {gen.py_src(exp[1])[:160]}"
+    ctx.hist("oracle_outcomes", got[0] + "/" + exp[0])
+    if what:
+        ctx.fail(f"{gen.py_ann(t)} <- {gen.py_src(d0)[:160]}: {what}",
+                 {"entry": "codec_decode", "source": fam.source(), "type": gen.py_ann(t), "input_src": gen.py_src(d0),
+                  "observed": ("ok:" + gen.py_src(got[1])) if got[0] == "ok" else "exc:" + got[1],
+                  "expected": ("ok:" + gen.py_src(exp[1])) if exp[0] == "ok" else "exc:*"},
+                 {"kind": "unpacked-tuple-short-input"} if (got[0] == "ok" and exp[0] != "ok" and "too few items" in exp[1]
+                                                            and short_tupleu(t, d0, fam)) else {"kind": "decode-ref"})
+
+def truncations(w, limit=12):
+    """every variant of a wire value in which ONE nested list is cut short (the outer one included)"""
+    out = []
+
+    def go(x, rebuild):
+        if len(out) >= limit:
+            return
+        if isinstance(x, list):
+            for n in range(len(x)):
+                out.append(rebuild(x[:n]))
+            for i, y in enumerate(x):
+                go(y, lambda z, i=i, x=x: rebuild(x[:i] + [z] + x[i + 1:]))
+        elif isinstance(x, dict):
+            for k2, y in x.items():
+                go(y, lambda z, k2=k2, x=x: rebuild({**x, k2: z}))
+    go(w, lambda z: z)
+    return out[:limit]
+
+
+def indexed_part(ctx):
+    """positions decoded by indexing (NamedTuple items with and without defaults, fixed tuples, nested NamedTuples) against inputs in
+    which exactly one nested sequence is too short: the only legal outcomes are the documented trailing defaults of THAT NamedTuple or an error"""
+    from mashumaro.codecs.basic import BasicDecoder, BasicEncoder
+    rng = ctx.rng
+    for i in range(ctx.budget(60, 400)):
+        sg = gen.SchemaGen(rng, gen.GenOpts(depth=2, named=True))
+        sg.tag = f"ix{i}_"
+
+        def item(d):
+            c = rng.random()
+            if c < 0.3 or d <= 0:
+                return gen.T(rng.choice(["int", "str", "bool", "float"]))
+            if c < 0.65:
+                return gen.T("tuplefix", [gen.T(rng.choice(["int", "str", "bool"])) for _ in range(rng.randrange(1, 4))])
+            if c < 0.85:
+                return nt(d - 1)
+            return gen.T("opt", [item(d - 1)])
+
+        def nt(d):
+            spec = gen.ClassSpec("nt", sg.fresh("N"))
+            for k2 in range(rng.randrange(1, 5)):
+                spec.fields.append(gen.FieldSpec(f"a{k2}", item(d)))
+            for f in reversed(spec.fields):
+                dv = sg.simple_default(f.ty) if rng.random() < 0.75 else None
+                if dv is None or (isinstance(dv[0], str) and dv[0].startswith("factory:")):
+                    break
+                f.default, f.default_src = dv
+            sg.fam.classes.append(spec)
+            return gen.T("nt", name=spec.name)
+        t = nt(2) if rng.random() < 0.8 else gen.T("tuplefix", [item(2) for _ in range(rng.randrange(1, 4))])
+        fam = sg.fam
+        ns = fam.build()
+        ty = gen.resolve(t, ns)
+        try:
+            dec, enc = BasicDecoder(ty), BasicEncoder(ty)
+        except Exception as e:
+            ctx.fail(f"codec for {gen.py_ann(t)} cannot be built: {type(e).__name__}: {e}",
+                     {"entry": "codec_build", "source": fam.source(), "type": gen.py_ann(t), "expected": "ok"}, {"kind": "decoder-build"})
+            fam.dispose()
+            continue
+        vg = gen.ValueGen(rng, fam)
+        try:
+            w = enc.encode(vg.value(t))
+        except Exception:
+            fam.dispose()
+            continue
+        ctx.hist("indexed_root", t.kind)
+        probe(ctx, t, fam, ns, dec, w, False)
+        for d in truncations(w):
+            probe(ctx, t, fam, ns, dec, d, True)
+        fam.dispose()
+
+
 def run(ctx: vlib.Ctx):
     from mashumaro.codecs.basic import BasicDecoder, BasicEncoder
 
@@ -115,35 +218,9 @@ def run(ctx: vlib.Ctx):
                 continue
             inputs = [w] + [tycorr.corrupt(w, ctx.rng) for _ in range(3)]
             for j, d in enumerate(inputs):
-                ctx.count((t.key(), repr(d)), nontrivial=j > 0)
-                d0 = copy.deepcopy(d)
-                try:
-                    exp = ("ok", ref.ref_decode(t, d0, fam, ns))
-                except ref.RefError as e:
-                    exp = ("undef", str(e))
-                try:
-                    got = ("ok", dec.decode(d))
-                except Exception as e:
-                    got = ("exc", type(e).__name__)
-                what = None
-                if got[0] == "ok":
-                    if exp[0] != "ok":
-                        what = f"decode returned {gen.py_src(got[1])[:160]} but the reference is undefined ({exp[1]})"
-                    elif not gen.same(got[1], exp[1]):
-                        what = f"decode returned {gen.py_src(got[1])[:160]}, reference {gen.py_src(exp[1])[:160]}"
-                    elif not ref.conforms(t, got[1], fam, ns):
-                        what = f"result {gen.py_src(got[1])[:160]} does not conform to the annotation (look-alike class)"
-                elif exp[0] == "ok":
-                    what = f"decode raised {got[1]} although the reference defines {gen.py_src(exp[1])[:160]}"
-                ctx.hist("oracle_outcomes", got[0] + "/" + exp[0])
-                if what:
-                    ctx.fail(f"{gen.py_ann(t)} <- {gen.py_src(d0)[:160]}: {what}",
-                             {"entry": "codec_decode", "source": fam.source(), "type": gen.py_ann(t), "input_src": gen.py_src(d0),
-                              "observed": ("ok:" + gen.py_src(got[1])) if got[0] == "ok" else "exc:" + got[1],
-                              "expected": ("ok:" + gen.py_src(exp[1])) if exp[0] == "ok" else "exc:*"},
-                             {"kind": "unpacked-tuple-short-input"} if (got[0] == "ok" and exp[0] != "ok" and "too few items" in exp[1]
-                                                                        and short_tupleu(t, d0, fam)) else {"kind": "decode-ref"})
+                probe(ctx, t, fam, ns, dec, d, j > 0)
         fam.dispose()
+    indexed_part(ctx)
 
 
 def replay(rep: dict) -> int:
